@@ -187,7 +187,10 @@ class DULServiceProvider(threading.Thread):
     def run(self):
         try:
             while not self.is_killed:
-                self._check_network() or self._check_outgoing_pdu() or self._check_timer()  # pylint: disable=expression-not-assigned
+                # poll for a new event only when there is no pending one: current PDU is kept in
+                # a single slot (self.primitive), so it should not be replaced until event that
+                # refers to it is processed
+                self.event or self._check_network() or self._check_outgoing_pdu() or self._check_timer()  # pylint: disable=expression-not-assigned
                 try:
                     evt = self.event.popleft()
                 except IndexError:
